@@ -233,10 +233,14 @@ func c18Run(c *fw.Ctx) {
 		c18ShippedCase(c)
 		return
 	}
+	if c.Case == 1 {
+		c18OtherTargetsCase(c)
+		return
+	}
 	per := c18PerCase(c.Tier)
 	var gs []*c18Grammar
 	for j := 0; j < per; j++ {
-		t := (c.Case-1)*per + j
+		t := (c.Case-2)*per + j
 		base := fmt.Sprintf("d%04d", t)
 		vec := c17Vector(c.Seed+5, t)
 		opt := map[string]bool{}
@@ -280,6 +284,114 @@ func c18Run(c *fw.Ctx) {
 		}
 	}
 	c.Count("grammars", int64(len(gs)))
+	c18Batch(c, gs, c18Reps, 2)
+	for _, g := range gs {
+		os.Remove(g.path)
+	}
+}
+
+// c18OtherTargets are the C++ and TypeScript grammars of the repository (generation
+// only, nothing is built). The C++ pair differs in flexMode, which switches the set
+// of generated files.
+var c18OtherTargets = []struct{ rel, name string }{
+	{"testing/cpp/json/json.tm", "cc_json"},
+	{"testing/cpp/json_flex/json.tm", "cc_json_flex"},
+	{"testing/ts/json/json.tm", "ts_json"},
+}
+
+// c18OptionToggles are option lines that may be flipped or added to derive variants
+// of the C++/TypeScript grammars (all valid for the target they are applied to).
+var c18OptionToggles = map[string][]string{
+	"cc": {"optimizeTables", "debugParser", "tokenColumn", "tokenLineOffset", "defaultReduce", "minimizeDFA", "eventBased"},
+	"ts": {"optimizeTables", "debugParser", "tokenColumn", "genSelector", "fixWhitespace", "eventAST", "defaultReduce", "minimizeDFA", "writeBison", "tokenStream"},
+}
+
+// c18Variant flips/adds n boolean options in the header of a grammar.
+func c18Variant(text, target string, picks []string) string {
+	i := strings.Index(text, ":: lexer")
+	if i < 0 {
+		i = strings.Index(text, "::lexer")
+	}
+	if i < 0 {
+		return text
+	}
+	head, rest := text[:i], text[i:]
+	for _, o := range picks {
+		switch {
+		case strings.Contains(head, "\n"+o+" = true"):
+			head = strings.Replace(head, "\n"+o+" = true", "\n"+o+" = false", 1)
+		case strings.Contains(head, "\n"+o+" = false"):
+			head = strings.Replace(head, "\n"+o+" = false", "\n"+o+" = true", 1)
+		default:
+			head = strings.TrimRight(head, "\n") + "\n" + o + " = true\n\n"
+		}
+	}
+	return head + rest
+}
+
+// c18OtherTargetsCase puts C++ (flexMode on and off) and TypeScript grammars and
+// option variants of them into one interleaved batch: the generated file lists of
+// these targets differ from grammar to grammar, so state leaking from one generation
+// into the next shows up as a changed write sequence.
+func c18OtherTargetsCase(c *fw.Ctx) {
+	repo := c30Repo()
+	var gs []*c18Grammar
+	add := func(name, text, desc string) {
+		path := filepath.Join(c.WorkDir, name+".tm")
+		if err := os.WriteFile(path, []byte(text), 0o644); err != nil {
+			c.Violate("harness/write-grammar", err.Error(), nil)
+			return
+		}
+		so, _, herr := genrun.RunHelper(c.WorkDir, []string{path}, 1)
+		if herr != nil {
+			c.Count("grammars_skipped_generation_dies", 1)
+			return
+		}
+		if strings.Contains(so, "\tcompile-error\t") || strings.Contains(so, "\tgenerate-error\t") {
+			c.Count("other_target_variants_rejected", 1)
+			for _, l := range strings.Split(so, "\n") {
+				if f := strings.SplitN(l, "\t", 3); len(f) == 3 && strings.HasSuffix(f[1], "-error") {
+					c.Count("other_target_reject:"+fw.Skeleton(c17RejectReason(f[2])), 1)
+				}
+			}
+			return
+		}
+		gs = append(gs, &c18Grammar{alone: strings.Split(strings.TrimSpace(so), "\n"), name: name + ".tm", path: path, text: text, desc: desc})
+	}
+	nvar := 2
+	if c.Tier == "thorough" {
+		nvar = 6
+	}
+	for _, src := range c18OtherTargets {
+		b, err := os.ReadFile(filepath.Join(repo, src.rel))
+		if err != nil {
+			c.Violate("harness/read-shipped-grammar", err.Error(), nil)
+			continue
+		}
+		target := src.name[:2]
+		add(src.name, string(b), "repository grammar "+src.rel)
+		for v := 0; v < nvar; v++ {
+			toggles := c18OptionToggles[target]
+			k := 1 + c.R.Intn(3)
+			var picks []string
+			for _, pi := range c.R.Perm(len(toggles))[:k] {
+				picks = append(picks, toggles[pi])
+			}
+			add(fmt.Sprintf("%s_v%d", src.name, v), c18Variant(string(b), target, picks), fmt.Sprintf("repository grammar %s with options toggled: %v", src.rel, picks))
+		}
+	}
+	// random order: which of flex / non-flex comes first decides which symptom shows
+	c.R.Shuffle(len(gs), func(i, j int) { gs[i], gs[j] = gs[j], gs[i] })
+	for _, g := range gs {
+		switch {
+		case strings.HasPrefix(g.name, "cc_json_flex"):
+			c.Count("other_targets:cc_flex", 1)
+		case strings.HasPrefix(g.name, "cc_"):
+			c.Count("other_targets:cc", 1)
+		default:
+			c.Count("other_targets:ts", 1)
+		}
+	}
 	c18Batch(c, gs, c18Reps, 2)
 	for _, g := range gs {
 		os.Remove(g.path)
@@ -344,16 +456,16 @@ func c18ShippedCase(c *fw.Ctx) {
 func init() {
 	fw.Register(&fw.Check{
 		ID: "C18",
-		Rule: "case 0: the five shipped grammars (3 in-process generations, 4 helper processes, byte comparison with the committed files); other cases: batches of large featgram grammars chosen for map-backed paths (60-120 keywords under (class) rules, up to 12 named sets, template flags and predicates, several lookahead nonterminals, lalr(2), typed AST with up to 6 categories, C17's option vectors with parser and listener on). Every grammar: 8 in-process generations interleaved round robin with the other grammars of the batch, and 2 generations in each of 4 helper processes (GOMAXPROCS 1/2/16, GOGC 1/400), all compared with the first generation as full Writer.Write sequences. Non-trivial/distinct = distinct reference transcript (grammars that the compiler rejects or that crash generation are skipped and counted)",
+		Rule: "case 0: the five shipped grammars (3 in-process generations, 4 helper processes, byte comparison with the committed files); case 1: the C++ (flexMode on and off) and TypeScript grammars of testing/ plus option-toggled variants of them, generation only, in one interleaved batch in random order; other cases: batches of large featgram grammars chosen for map-backed paths (60-120 keywords under (class) rules, up to 12 named sets, template flags and predicates, several lookahead nonterminals, lalr(2), typed AST with up to 6 categories, C17's option vectors with parser and listener on). Every grammar: 8 in-process generations interleaved round robin with the other grammars of the batch, and 2 generations in each of 4 helper processes (GOMAXPROCS 1/2/16, GOGC 1/400), all compared with the first generation as full Writer.Write sequences. Non-trivial/distinct = distinct reference transcript (grammars that the compiler rejects or that crash generation are skipped and counted)",
 		Assumptions: []string{
 			"SHA-256 equality of a written file in another process stands for byte equality",
 			"the helper process is the vcheck binary itself (same /repo tree, same build flags); the -race run of DESIGN C18 is not performed",
 		},
 		Cases: func(tier string) int {
 			if tier == "thorough" {
-				return 41
+				return 42
 			}
-			return 9
+			return 10
 		},
 		MinNontrivial: func(tier string) int {
 			if tier == "thorough" {
@@ -361,7 +473,7 @@ func init() {
 			}
 			return 25
 		},
-		RequiredCounters: []string{"shipped_files_compared", "in_process_repetitions_compared", "cross_process_generations_compared",
+		RequiredCounters: []string{"shipped_files_compared", "other_targets:cc", "other_targets:cc_flex", "other_targets:ts", "in_process_repetitions_compared", "cross_process_generations_compared",
 			"feat:named-set", "feat:lookahead", "feat:template-flag", "feat:interface-categories", "feat:lexer-class-rule", "feat:lalr2"},
 		CPUBudget: 1500,
 		Run:       c18Run,
